@@ -163,3 +163,13 @@ Theorem C01_source_linear_one_bit_sign_bounds : forall c, ql_sign c = true ->
   LinGen.gen_ql_clip_min (ql_bits c) (ql_kn c) (ql_sym c) = (-1, 2) /\ LinGen.gen_ql_clip_max (ql_bits c) (ql_kn c) (ql_sym c) = (1, 2).
 Proof. exact link_ql_sign_bounds. Qed.
 Print Assumptions C01_source_linear_one_bit_sign_bounds.
+
+(* ---- the legacy quantized_bits.__call__ (data-independent path), regenerated from the source on every run
+        (coq/gen/QBitsGen.v): its value is scale * code * 2^step_exponent for a code of the declared format. ---- *)
+From QV Require Import Link.QBitsLink.
+From QVGen Require QBitsGen.
+Theorem C01_source_qbits_emits_a_code_of_the_format : forall c alpha x, 0 < rden x -> 0 <= qb_ub c ->
+  exists code, qb_lo c <= code <= qb_hi c /\
+    req (QBitsGen.gen_qb_xq (qb_bits c) (qb_int c) (qb_kn c) (qb_sym c) alpha x) (rmul alpha (rscale (rofZ code) (qb_se c))) = true.
+Proof. intros c alpha x Xd U. exists (qb_code c (rnum x) (rden x)). split; [apply qb_code_range; exact U | exact (link_qb_xq c alpha x Xd U)]. Qed.
+Print Assumptions C01_source_qbits_emits_a_code_of_the_format.
